@@ -172,6 +172,14 @@ def run(tier, seed):
                 ck.disagree('parse_dump_file differs from model', rp)
         # stand-alone CLI: python -m io_drawer.dump
         for name, hdr, sf in drawers:
+            for empty_text in ('', '\n', '# no data lines at all\n\n'):
+                path = os.path.join(tmp, 'cli_empty.txt')
+                open(path, 'w').write(empty_text)
+                rc, out, _err = common.run2([common.PY, '-W', 'ignore', '-m', 'io_drawer.dump', '-t', name, path], env=common.child_env())
+                ck.case(key=('cli-empty', name, empty_text))
+                ck.count('cli empty input')
+                if rc != 0 or out != '':
+                    ck.fail('python -m io_drawer.dump prints something for a dump file without data bytes', {'op': 'cli', 'drawer': name, 'text': empty_text, 'rc': rc, 'stdout': out[:100]}, 'cli_empty')
             d = gen_dump(rng) or b'\x01\x02'
             r = lean_batch(['render 1 1 ' + tb(d)])[0]
             path = os.path.join(tmp, 'cli.txt')
